@@ -10,6 +10,7 @@ from vmc.explore import Execution
 from vmc.progs import ENGINE_ASSUMPTIONS
 from workflows.events import StartEvent, StopEvent
 from workflows.resource import Resource
+from workflows.retry_policy import retry_policy, stop_after_attempt, wait_fixed
 
 PID = "C22"
 
@@ -58,7 +59,7 @@ class Obj:
         return f"{self.kind}#{self.idx}"
 
 
-def make_graph(spec: dict[str, Any], calls: dict[str, int]) -> dict[str, Any]:
+def make_graph(spec: dict[str, Any], calls: dict[str, int], failed: dict[str, int] | None = None) -> dict[str, Any]:
     """spec: name -> {"async": bool, "cache": bool, "deps": [names]}; returns name -> Resource descriptor.
     Cycles are allowed (descriptors are created first, annotations patched afterwards)."""
     factories: dict[str, Any] = {}
@@ -72,12 +73,20 @@ def make_graph(spec: dict[str, Any], calls: dict[str, int]) -> dict[str, Any]:
             else:
                 src = f"def make_{name}({', '.join(deps)}):\n    return _impl_sync(dict({', '.join(f'{d}={d}' for d in deps)}))\n"
 
+            def _maybe_fail() -> None:
+                # "fail_first": the factory raises on its first call (a transient fault), works afterwards
+                if cfg.get("fail_first") and failed is not None and not failed.get(name):
+                    failed[name] = 1
+                    raise RuntimeError(f"factory make_{name} failed (transient)")
+
             async def _impl(kw: dict[str, Any]) -> Any:
-                calls[name] = calls.get(name, 0) + 1
                 await gate(f"make_{name}")
+                _maybe_fail()
+                calls[name] = calls.get(name, 0) + 1
                 return Obj(name, kw)
 
             def _impl_sync(kw: dict[str, Any]) -> Any:
+                _maybe_fail()
                 calls[name] = calls.get(name, 0) + 1
                 return Obj(name, kw)
 
@@ -101,7 +110,11 @@ def execute(ex: Execution, graph: dict[str, Any], inject: dict[str, list[str]], 
     with EngineExec(ex, RunConfig()) as e:
         h = e.h
         calls: dict[str, int] = {}
-        desc = make_graph(graph, calls)
+        failed: dict[str, int] = {}
+        desc = make_graph(graph, calls, failed)
+        fail_mode = mode == "three_fail"
+        if fail_mode:
+            mode = "three"
         got: list[tuple[str, int, dict[str, Any]]] = []
         overlapped: dict[tuple[str, int], Any] = {}
         n_done = 3 if mode == "three" else 2
@@ -136,6 +149,7 @@ def execute(ex: Execution, graph: dict[str, Any], inject: dict[str, list[str]], 
         if mode == "three":
             for sn, et in (("s1", A), ("s2", B), ("s3", C)):
                 steps.append(make_step(sn, [et], [Done], user(sn),
+                                       retry_policy=(retry_policy(wait=wait_fixed(0), stop=stop_after_attempt(3)) if fail_mode else None),
                                        extra_params={r: Annotated[Obj, desc[r]] for r in inject[sn]}))
         elif mode in ("two_steps", "staggered_steps"):
             steps.append(make_step("s1", [A], [Done], user("s1"),
@@ -169,7 +183,9 @@ def execute(ex: Execution, graph: dict[str, Any], inject: dict[str, list[str]], 
         e.drive()
         out = task_outcome(hd._result_task)
         v: list[Any] = []
-        w = {"mode": mode.replace("staggered_", "two_")}
+        w = {"mode": "three_fail" if fail_mode else mode.replace("staggered_", "two_")}
+        if fail_mode and not failed:
+            v.append(("harness_vacuity", w, "the transient factory fault never happened"))
         any_overlap = any(r["overlapped"] for r in _SCOPES["log"] + _SCOPES["open"])
         is_cycle_err = out[0] == "exception" and "Circular resource dependency" in str(out[1])
         if cyclic:
@@ -231,7 +247,9 @@ def execute(ex: Execution, graph: dict[str, Any], inject: dict[str, list[str]], 
                                       f"non-cached {rname}: invocations received {firsts} (overlap per invocation: {overlapped})"))
                         under_cached = any(c.get("cache", True) and rname in c.get("deps", []) for c in graph.values())
                         shared = len({id(o) for o in firsts}) != len(firsts)  # reported above; the count follows from it
-                        if not shared and not under_cached and calls.get(rname, 0) != len(users):
+                        # (an attempt whose resolution raised may have created the resource once more before it failed)
+                        slack = sum(failed.values()) if fail_mode else 0
+                        if not shared and not under_cached and not (len(users) <= calls.get(rname, 0) <= len(users) + slack):
                             v.append(("non_cached_factory_call_count", {**w, "async": cfg.get("async", True)},
                                       f"non-cached {rname}: {calls.get(rname, 0)} factory calls for {len(users)} invocations"))
         obs = {"outcome": out[0], "value": repr(out[1])[:80], "calls": dict(sorted(calls.items())),
@@ -274,8 +292,25 @@ THREE: dict[str, tuple[dict[str, Any], dict[str, list[str]]]] = {
 }
 
 
+THREE_FAIL: dict[str, tuple[dict[str, Any], dict[str, list[str]]]] = {
+    # a resolution that raises (a factory with a transient fault; the step is retried) followed by later resolutions on the
+    # same ResourceManager: the non-cached resource must still be fresh for every invocation
+    "fail_sync_then_fresh": ({"n": {"async": False, "cache": False}, "f": {"async": False, "cache": False, "fail_first": True}},
+                             {"s1": ["n", "f"], "s2": ["n"], "s3": ["n"]}),
+    "fail_async_then_fresh": ({"n": {"async": False, "cache": False}, "f": {"async": True, "cache": False, "fail_first": True}},
+                              {"s1": ["n", "f"], "s2": ["n"], "s3": ["n"]}),
+    "fail_nested_then_fresh": ({"n": {"async": False, "cache": False}, "f": {"async": False, "cache": False, "fail_first": True},
+                                "g": {"async": True, "cache": True, "deps": ["n", "f"]}},
+                               {"s1": ["g"], "s2": ["n"], "s3": ["n", "g"]}),
+}
+
+
 def programs(tier: str) -> list[Program]:
     ps = []
+    for gname, (graph, inject) in THREE_FAIL.items():
+        ps.append(Program(f"{gname}/three_fail", {"graph": gname, "mode": "three_fail"},
+                          (lambda ex, graph=graph, inject=inject: execute(ex, graph, inject, "three_fail", False)),
+                          max_dev=(None if tier != "quick" else 4)))
     for gname, (graph, inject) in THREE.items():
         ps.append(Program(f"{gname}/three", {"graph": gname, "mode": "three"},
                           (lambda ex, graph=graph, inject=inject: execute(ex, graph, inject, "three", False)),
@@ -292,7 +327,8 @@ def programs(tier: str) -> list[Program]:
 
 RULE = ("dependency graphs over <=3 resources (sync/async factories with an inner suspension point, cached / "
         "non-cached, shared sub-dependency, 1-, 2- and 3-cycles) injected into two steps that overlap and into two "
-        "invocations of a num_workers=2 step x all interleavings of factory and step suspension points; factory call "
+        "invocations of a num_workers=2 step, and resolutions that follow one that raised (factory with a transient fault, step "
+        "retried) x all interleavings of factory and step suspension points; factory call "
         "counts, identities of injected objects and cycle errors are compared with the documented caching rules; "
         "non-trivial = at least one schedule deviation")
 
